@@ -400,14 +400,20 @@ func (d *cfgDriver) run(i int, c cfgCase) {
 				w.add("us_req_"+q.name, time.Since(tq).Microseconds())
 				w.add("n_req_"+q.name, 1)
 			}
+			if failed {
+				break
+			}
 		}
 		lap("P_reqs")
-		if rec := guard(func() { collectorStep(n, samplers) }); rec != nil {
-			report("deciding/sending the spans the routers accepted", rec)
+		if !failed {
+			if rec := guard(func() { collectorStep(n, samplers) }); rec != nil {
+				report("deciding/sending the spans the routers accepted", rec)
+			}
 		}
-		if rec := guard(func() { n.Flush() }); rec != nil {
-			report("serialising and sending the accepted events (DirectTransmission.sendBatch)", rec)
-			n = nil // transmissions are unusable after a failed flush
+		if !failed {
+			if rec := guard(func() { n.Flush() }); rec != nil {
+				report("serialising and sending the accepted events (DirectTransmission.sendBatch)", rec)
+			}
 		}
 		lap("P_flush")
 	}
